@@ -71,7 +71,7 @@ def do_import(staging, logs, offset=0):
 
 def do_eval(ids):
     repo = os.environ.get("ACRYO_SEED_REPO", "/repo")
-    wt = "/tmp/acryo_seed_eval"
+    wt = os.environ.get("SEED_EVAL_WORKTREE", "/tmp/acryo_seed_eval")
     subprocess.run(["git", "-C", repo, "worktree", "remove", "--force", wt], capture_output=True)
     subprocess.run(["git", "-C", repo, "worktree", "add", "-q", "--detach", wt, "HEAD"], check=True)
     try:
@@ -109,8 +109,9 @@ def do_eval(ids):
             meta["check_outcome"] = outcome
             meta["caught_by"] = "; ".join((broken[:3] + sorted(set(oracles))[:3])) or "-"
             meta["ran"] = f"git apply patch.diff in a scratch worktree; ACRYO_REPO=<worktree> ./check {meta['property']} quick"
-            json.dump(meta, open(os.path.join(d, "meta.json"), "w"), indent=1)
-            print(sid, outcome)
+            if not os.environ.get("SEED_EVAL_DRYRUN"):
+                json.dump(meta, open(os.path.join(d, "meta.json"), "w"), indent=1)
+            print(sid, outcome, flush=True)
     finally:
         subprocess.run(["git", "-C", repo, "worktree", "remove", "--force", wt], capture_output=True)
 
